@@ -32,6 +32,8 @@ const (
 	avFunc
 	avCell
 	avTuple
+	avStr
+	avStruct
 )
 
 // AV is an abstract value.
@@ -42,8 +44,17 @@ type AV struct {
 	Fn    *ssa.Function
 	Binds []AV
 	Cell  ssa.Value
+	Path  string // for avCell: sub-object path below the allocation (".f2", "[1]", ...)
 	Tup   []AV
-	Tag   string // free-form provenance tag set by rules (e.g. "closed-flag")
+	S     string      // avStr
+	Flds  map[int]AV  // avStruct: abstract values of the fields that are known
+	Tag   string      // free-form provenance tag set by rules; tags starting with "~" are inherited by values selected/loaded from this one
+}
+
+// cellKey identifies a tracked memory cell: an allocation plus a path below it.
+type cellKey struct {
+	base ssa.Value
+	path string
 }
 
 func (a AV) key() string {
@@ -74,7 +85,22 @@ func (a AV) writeKey(sb *strings.Builder) {
 		}
 		sb.WriteString(")")
 	case avCell:
-		fmt.Fprintf(sb, "cell(%s@%s)", a.Cell.Name(), a.Cell.Parent().String())
+		fmt.Fprintf(sb, "cell(%s@%s%s)", a.Cell.Name(), a.Cell.Parent().String(), a.Path)
+	case avStr:
+		fmt.Fprintf(sb, "s%q", a.S)
+	case avStruct:
+		sb.WriteString("{")
+		ks := make([]int, 0, len(a.Flds))
+		for k := range a.Flds {
+			ks = append(ks, k)
+		}
+		sort.Ints(ks)
+		for _, k := range ks {
+			fmt.Fprintf(sb, "%d:", k)
+			a.Flds[k].writeKey(sb)
+			sb.WriteString(",")
+		}
+		sb.WriteString("}")
 	case avTuple:
 		sb.WriteString("(")
 		for i, t := range a.Tup {
@@ -126,7 +152,7 @@ func (t tokset) has(ks ...string) bool {
 // Fact is one partition.
 type Fact struct {
 	Vals   map[ssa.Value]AV
-	Cells  map[ssa.Value]AV
+	Cells  map[cellKey]AV
 	Must   tokset
 	May    tokset
 	TS     map[string]string
@@ -144,11 +170,11 @@ type deferRec struct {
 }
 
 func newFact() *Fact {
-	return &Fact{Vals: map[ssa.Value]AV{}, Cells: map[ssa.Value]AV{}, Must: tokset{}, May: tokset{}, TS: map[string]string{}}
+	return &Fact{Vals: map[ssa.Value]AV{}, Cells: map[cellKey]AV{}, Must: tokset{}, May: tokset{}, TS: map[string]string{}}
 }
 
 func (f *Fact) clone() *Fact {
-	n := &Fact{Vals: make(map[ssa.Value]AV, len(f.Vals)), Cells: make(map[ssa.Value]AV, len(f.Cells)),
+	n := &Fact{Vals: make(map[ssa.Value]AV, len(f.Vals)), Cells: make(map[cellKey]AV, len(f.Cells)),
 		Must: f.Must.clone(), May: f.May.clone(), TS: make(map[string]string, len(f.TS))}
 	for k, v := range f.Vals {
 		n.Vals[k] = v
@@ -207,7 +233,7 @@ func (f *Fact) kkey() string {
 		parts = append(parts, "v:"+valName(v)+"="+a.key())
 	}
 	for c, a := range f.Cells {
-		parts = append(parts, "c:"+valName(c)+"="+a.key())
+		parts = append(parts, "c:"+valName(c.base)+c.path+"="+a.key())
 	}
 	for k, v := range f.TS {
 		parts = append(parts, "ts:"+k+"="+v)
@@ -341,6 +367,7 @@ type Ctx struct {
 	E  *OrdEngine
 	Fr *Frame
 	P  *Prog
+	F  *Fact // the fact current when the callback is made (may be nil for pure classification)
 }
 
 func (cx *Ctx) Eval(v ssa.Value, f *Fact) AV { return cx.E.eval(v, cx.Fr, f) }
@@ -572,6 +599,8 @@ func (e *OrdEngine) eval(v ssa.Value, fr *Frame, f *Fact) AV {
 				if n, ok := constant.Int64Val(x.Value); ok {
 					return AV{K: avInt, N: n}
 				}
+			case constant.String:
+				return AV{K: avStr, S: constant.StringVal(x.Value)}
 			}
 		}
 		return AV{}
@@ -729,11 +758,78 @@ func (e *OrdEngine) assign(v ssa.Value, a AV, fr *Frame, f *Fact) {
 	if u, ok := v.(*ssa.UnOp); ok && u.Op == token.MUL {
 		pa := e.eval(u.X, fr, f)
 		if pa.K == avCell {
-			if old, ok := f.Cells[pa.Cell]; ok && old.K == avUnknown && old.Ev == a.Ev && old.Ev != "" {
-				f.Cells[pa.Cell] = a
+			ck := cellKey{pa.Cell, pa.Path}
+			if old, ok := f.Cells[ck]; ok && old.K == avUnknown && old.Ev == a.Ev && old.Ev != "" {
+				f.Cells[ck] = a
 			}
 		}
 	}
+}
+
+// storeCell writes a value into a cell; struct values are spread over the field cells.
+func (e *OrdEngine) storeCell(ck cellKey, va AV, f *Fact) {
+	// a store to a cell replaces whatever was known about its sub-cells
+	for k := range f.Cells {
+		if k.base == ck.base && k.path != ck.path && strings.HasPrefix(k.path, ck.path) {
+			delete(f.Cells, k)
+		}
+	}
+	if va.K == avStruct {
+		delete(f.Cells, ck)
+		for i, fv := range va.Flds {
+			if fv.interesting() {
+				f.Cells[cellKey{ck.base, fmt.Sprintf("%s.f%d", ck.path, i)}] = fv
+			}
+		}
+		if va.Tag != "" {
+			f.Cells[ck] = AV{Tag: va.Tag}
+		}
+		return
+	}
+	if va.interesting() {
+		f.Cells[ck] = va
+	} else {
+		delete(f.Cells, ck)
+	}
+}
+
+// loadCell reads a cell; a load of a whole struct collects what is known about its fields.
+func (e *OrdEngine) loadCell(ck cellKey, f *Fact) (AV, bool) {
+	whole, ok := f.Cells[ck]
+	var st AV
+	prefix := ck.path + ".f"
+	for k, v := range f.Cells {
+		if k.base != ck.base || !strings.HasPrefix(k.path, prefix) {
+			continue
+		}
+		rest := k.path[len(prefix):]
+		if strings.ContainsAny(rest, ".[") {
+			continue // deeper levels are not reassembled
+		}
+		var idx int
+		if _, err := fmt.Sscanf(rest, "%d", &idx); err != nil {
+			continue
+		}
+		if st.Flds == nil {
+			st = AV{K: avStruct, Flds: map[int]AV{}}
+		}
+		st.Flds[idx] = v
+	}
+	if st.K == avStruct {
+		if ok {
+			st.Tag = whole.Tag
+		}
+		return st, true
+	}
+	return whole, ok
+}
+
+// inheritTag gives the result of a selection/load the "~" tag of the value it was taken from.
+func inheritTag(res AV, from AV) AV {
+	if res.Tag == "" && strings.HasPrefix(from.Tag, "~") {
+		res.Tag = from.Tag
+	}
+	return res
 }
 
 // ---------------------------------------------------------------- function analysis
@@ -794,8 +890,10 @@ func (e *OrdEngine) analyse(fr *Frame, entry *Fact) []exitRec {
 			if a.K == avCell {
 				if !keep[a.Cell] {
 					keep[a.Cell] = true
-					if ca, ok := g.Cells[a.Cell]; ok {
-						walk(ca)
+					for ck, ca := range g.Cells {
+						if ck.base == a.Cell {
+							walk(ca)
+						}
 					}
 				}
 			}
@@ -805,10 +903,13 @@ func (e *OrdEngine) analyse(fr *Frame, entry *Fact) []exitRec {
 			for _, t := range a.Tup {
 				walk(t)
 			}
+			for _, t := range a.Flds {
+				walk(t)
+			}
 		}
 		walk(ret)
 		for c := range g.Cells {
-			if c.Parent() == fn && !keep[c] {
+			if c.base.Parent() == fn && !keep[c.base] {
 				delete(g.Cells, c)
 			}
 		}
@@ -878,16 +979,18 @@ func (e *OrdEngine) analyse(fr *Frame, entry *Fact) []exitRec {
 			case *ssa.If:
 				for _, f := range facts {
 					a := e.eval(x.Cond, fr, f)
-					cx := &Ctx{E: e, Fr: fr, P: e.P}
+					cx := &Ctx{E: e, Fr: fr, P: e.P, F: f}
 					switch a.K {
 					case avTrue:
 						g := f.clone()
+						e.eofBranch(cx, x, true, g)
 						if e.Spec.OnBranch != nil {
 							e.Spec.OnBranch(cx, x, true, g)
 						}
 						e.flow(b, b.Succs[0], g, fr, push)
 					case avFalse:
 						g := f.clone()
+						e.eofBranch(cx, x, false, g)
 						if e.Spec.OnBranch != nil {
 							e.Spec.OnBranch(cx, x, false, g)
 						}
@@ -895,12 +998,14 @@ func (e *OrdEngine) analyse(fr *Frame, entry *Fact) []exitRec {
 					default:
 						ft := f.clone()
 						e.refine(x.Cond, true, fr, ft)
+						e.eofBranch(cx, x, true, ft)
 						if e.Spec.OnBranch != nil {
 							e.Spec.OnBranch(cx, x, true, ft)
 						}
 						e.flow(b, b.Succs[0], ft, fr, push)
 						ff := f.clone()
 						e.refine(x.Cond, false, fr, ff)
+						e.eofBranch(cx, x, false, ff)
 						if e.Spec.OnBranch != nil {
 							e.Spec.OnBranch(cx, x, false, ff)
 						}
@@ -976,7 +1081,7 @@ func (e *OrdEngine) flow(from, to *ssa.BasicBlock, f *Fact, fr *Frame, push func
 		// explicit normalisation idiom: an error variable carrying a failed event is
 		// overwritten by the constant nil ("treat as success")
 		if c, isConst := in.(*ssa.Const); isConst && c.IsNil() && isErrorType(phi.Type()) {
-			cx := &Ctx{E: e, Fr: fr, P: e.P}
+			cx := &Ctx{E: e, Fr: fr, P: e.P, F: f}
 			for j, other := range phi.Edges {
 				if j == pi {
 					continue
@@ -989,12 +1094,129 @@ func (e *OrdEngine) flow(from, to *ssa.BasicBlock, f *Fact, fr *Frame, push func
 				}
 			}
 		}
+		if a.K == avInt && !e.boundedCounter(phi, fr, f) {
+			a = AV{} // a loop counter with an unknown bound is not tracked (it would unroll without end)
+		}
 		upds = append(upds, upd{phi, a})
 	}
 	for _, u := range upds {
 		e.setVal(u.v, u.a, f)
 	}
 	push(to, f)
+}
+
+// eofBranch recognises the branch form of the "EOF with a full transfer is success" idiom:
+//   n, err := f.WriteAt(...); if err != nil && !(err == io.EOF && n == len(buf)) { return err }
+// On the edge err == io.EOF (err being the failed error of event E) the candidate is noted; on a later edge
+// n == len(...) (n being result #0 of the same call) the failure is normalised to success, exactly like the
+// explicit `err = nil` form handled at the phi.
+func (e *OrdEngine) eofBranch(cx *Ctx, ifi *ssa.If, truth bool, f *Fact) {
+	bo, ok := ifi.Cond.(*ssa.BinOp)
+	if !ok || (bo.Op != token.EQL && bo.Op != token.NEQ) {
+		return
+	}
+	eq := (bo.Op == token.EQL) == truth
+	if !eq {
+		return
+	}
+	isEOF := func(v ssa.Value) bool {
+		u, ok := v.(*ssa.UnOp)
+		if !ok || u.Op != token.MUL {
+			return false
+		}
+		g, ok := u.X.(*ssa.Global)
+		return ok && g.Name() == "EOF" && g.Pkg != nil && g.Pkg.Pkg.Path() == "io"
+	}
+	for _, pair := range [][2]ssa.Value{{bo.X, bo.Y}, {bo.Y, bo.X}} {
+		errv, other := pair[0], pair[1]
+		if isEOF(other) {
+			if ev := e.errOrigin(cx, errv); ev != "" && f.Must[ev+":fail"] {
+				f.TS["eof:"+ev] = "1"
+			}
+		}
+		// n == len(x) with n result #0 of a call whose failure was seen to be EOF
+		if ex, ok := errv.(*ssa.Extract); ok && ex.Index == 0 {
+			if lc, ok := other.(*ssa.Call); ok {
+				if b, ok := lc.Call.Value.(*ssa.Builtin); ok && b.Name() == "len" {
+					if ev := e.errOrigin(cx, ex); ev != "" && f.TS["eof:"+ev] == "1" && f.Must[ev+":fail"] {
+						f.note(fmt.Sprintf("normalise %s (EOF with full transfer)@%s", ev, e.P.Position(ifi.Pos())))
+						e.emit(cx, ev, "normalised", ifi, f)
+						delete(f.TS, "eof:"+ev)
+					}
+				}
+			}
+		}
+	}
+}
+
+// boundedCounter: an integer phi is worth tracking only when it is compared (itself or +const) with a
+// value that is a known small integer in the current fact (a loop over a short literal list).
+func (e *OrdEngine) boundedCounter(phi *ssa.Phi, fr *Frame, f *Fact) bool {
+	// members of the phi/arithmetic cycle through phi
+	members := map[ssa.Value]bool{}
+	isLoopPhi := false
+	var walk func(v ssa.Value)
+	walk = func(v ssa.Value) {
+		var ops []ssa.Value
+		switch x := v.(type) {
+		case *ssa.Phi:
+			ops = x.Edges
+		case *ssa.BinOp:
+			ops = []ssa.Value{x.X, x.Y}
+		case *ssa.Convert:
+			ops = []ssa.Value{x.X}
+		default:
+			return
+		}
+		for _, o := range ops {
+			if o == phi {
+				isLoopPhi = true
+			}
+			if !members[o] {
+				members[o] = true
+				walk(o)
+			}
+		}
+	}
+	walk(phi)
+	if !isLoopPhi {
+		return true
+	}
+	check := func(v ssa.Value) bool {
+		refs := v.Referrers()
+		if refs == nil {
+			return false
+		}
+		for _, ref := range *refs {
+			bo, ok := ref.(*ssa.BinOp)
+			if !ok {
+				continue
+			}
+			switch bo.Op {
+			case token.LSS, token.LEQ, token.GTR, token.GEQ, token.EQL, token.NEQ:
+				other := bo.Y
+				if bo.Y == v {
+					other = bo.X
+				}
+				if a := e.eval(other, fr, f); a.K == avInt && a.N >= 0 && a.N <= 4 {
+					return true
+				}
+			}
+		}
+		return false
+	}
+	if check(phi) {
+		return true
+	}
+	for m := range members {
+		switch m.(type) {
+		case *ssa.Phi, *ssa.BinOp:
+			if check(m) {
+				return true
+			}
+		}
+	}
+	return false
 }
 
 // errOrigin names the event whose error result v is (through Extract), if any.
@@ -1036,7 +1258,7 @@ func (e *OrdEngine) emit(cx *Ctx, ev, phase string, ins ssa.Instruction, f *Fact
 }
 
 func (e *OrdEngine) doReturn(ret *ssa.Return, fr *Frame, f *Fact, addExit func(*Fact, AV, *ssa.Return)) {
-	cx := &Ctx{E: e, Fr: fr, P: e.P}
+	cx := &Ctx{E: e, Fr: fr, P: e.P, F: f}
 	var rav AV
 	switch len(ret.Results) {
 	case 0:
@@ -1072,19 +1294,14 @@ func (e *OrdEngine) doReturn(ret *ssa.Return, fr *Frame, f *Fact, addExit func(*
 
 // step executes one non-control instruction; may fork.
 func (e *OrdEngine) step(ins ssa.Instruction, fr *Frame, f *Fact) []*Fact {
-	cx := &Ctx{E: e, Fr: fr, P: e.P}
+	cx := &Ctx{E: e, Fr: fr, P: e.P, F: f}
 	switch x := ins.(type) {
 	case *ssa.Phi:
 		return []*Fact{f} // handled in flow
 	case *ssa.Store:
 		pa := e.eval(x.Addr, fr, f)
 		if pa.K == avCell {
-			va := e.eval(x.Val, fr, f)
-			if va.interesting() {
-				f.Cells[pa.Cell] = va
-			} else {
-				delete(f.Cells, pa.Cell)
-			}
+			e.storeCell(cellKey{pa.Cell, pa.Path}, e.eval(x.Val, fr, f), f)
 		}
 		if e.Spec.Instr != nil {
 			e.Spec.Instr(cx, ins, f)
@@ -1095,9 +1312,11 @@ func (e *OrdEngine) step(ins ssa.Instruction, fr *Frame, f *Fact) []*Fact {
 		case token.MUL:
 			pa := e.eval(x.X, fr, f)
 			if pa.K == avCell {
-				if a, ok := f.Cells[pa.Cell]; ok {
+				if a, ok := e.loadCell(cellKey{pa.Cell, pa.Path}, f); ok {
 					e.setVal(x, a, f)
 				}
+			} else if pa.Tag != "" && strings.HasPrefix(pa.Tag, "~") {
+				e.setVal(x, AV{Tag: pa.Tag}, f)
 			} else if g, ok := x.X.(*ssa.Global); ok && isErrorType(g.Type().(*types.Pointer).Elem()) {
 				e.setVal(x, AV{K: avNonNil}, f) // sentinel error variable
 			}
@@ -1119,14 +1338,90 @@ func (e *OrdEngine) step(ins ssa.Instruction, fr *Frame, f *Fact) []*Fact {
 		}
 		return []*Fact{f}
 	case *ssa.BinOp:
-		if r, ok := cmpAV(x.Op, e.eval(x.X, fr, f), e.eval(x.Y, fr, f)); ok {
+		ax, ay := e.eval(x.X, fr, f), e.eval(x.Y, fr, f)
+		if r, ok := cmpAV(x.Op, ax, ay); ok {
 			e.setVal(x, boolAV(r), f)
+		} else if ax.K == avInt && ay.K == avInt {
+			switch x.Op {
+			case token.ADD:
+				e.setVal(x, AV{K: avInt, N: ax.N + ay.N}, f)
+			case token.SUB:
+				e.setVal(x, AV{K: avInt, N: ax.N - ay.N}, f)
+			}
+		} else if ax.K == avStr && ay.K == avStr && x.Op == token.ADD {
+			e.setVal(x, AV{K: avStr, S: ax.S + ay.S}, f)
+		}
+		return []*Fact{f}
+	case *ssa.FieldAddr:
+		base := e.eval(x.X, fr, f)
+		if base.K == avCell {
+			e.setVal(x, AV{K: avCell, Cell: base.Cell, Path: fmt.Sprintf("%s.f%d", base.Path, x.Field)}, f)
+		} else if strings.HasPrefix(base.Tag, "~") {
+			e.setVal(x, AV{Tag: base.Tag}, f)
+		}
+		return []*Fact{f}
+	case *ssa.IndexAddr:
+		base := e.eval(x.X, fr, f)
+		idx := e.eval(x.Index, fr, f)
+		if base.K == avCell && idx.K == avInt {
+			e.setVal(x, AV{K: avCell, Cell: base.Cell, Path: fmt.Sprintf("%s[%d]", base.Path, idx.N)}, f)
+		} else if strings.HasPrefix(base.Tag, "~") {
+			e.setVal(x, AV{Tag: base.Tag}, f)
+		}
+		if e.Spec.Instr != nil {
+			e.Spec.Instr(cx, ins, f)
+		}
+		return []*Fact{f}
+	case *ssa.Slice:
+		base := e.eval(x.X, fr, f)
+		if base.K == avCell && x.Low == nil && x.High == nil && x.Max == nil {
+			e.setVal(x, base, f) // t[:] of an array variable aliases it
+		} else if strings.HasPrefix(base.Tag, "~") {
+			e.setVal(x, AV{Tag: base.Tag}, f)
+		}
+		if e.Spec.Instr != nil {
+			e.Spec.Instr(cx, ins, f)
+		}
+		return []*Fact{f}
+	case *ssa.Field:
+		base := e.eval(x.X, fr, f)
+		if base.K == avStruct {
+			if fv, ok := base.Flds[x.Field]; ok {
+				e.setVal(x, inheritTag(fv, base), f)
+				return []*Fact{f}
+			}
+		}
+		if strings.HasPrefix(base.Tag, "~") {
+			e.setVal(x, AV{Tag: base.Tag}, f)
+		}
+		return []*Fact{f}
+	case *ssa.Convert:
+		e.setVal(x, e.eval(x.X, fr, f), f)
+		return []*Fact{f}
+	case *ssa.Index:
+		base := e.eval(x.X, fr, f)
+		if strings.HasPrefix(base.Tag, "~") {
+			e.setVal(x, AV{Tag: base.Tag}, f)
+		}
+		return []*Fact{f}
+	case *ssa.Range:
+		base := e.eval(x.X, fr, f)
+		if strings.HasPrefix(base.Tag, "~") {
+			e.setVal(x, AV{Tag: base.Tag}, f)
+		}
+		return []*Fact{f}
+	case *ssa.Next:
+		base := e.eval(x.Iter, fr, f)
+		if strings.HasPrefix(base.Tag, "~") {
+			e.setVal(x, AV{Tag: base.Tag}, f)
 		}
 		return []*Fact{f}
 	case *ssa.Extract:
 		t := e.eval(x.Tuple, fr, f)
 		if t.K == avTuple && x.Index < len(t.Tup) {
-			e.setVal(x, t.Tup[x.Index], f)
+			e.setVal(x, inheritTag(t.Tup[x.Index], t), f)
+		} else if strings.HasPrefix(t.Tag, "~") {
+			e.setVal(x, AV{Tag: t.Tag}, f)
 		}
 		return []*Fact{f}
 	case *ssa.MakeClosure:
@@ -1254,7 +1549,7 @@ func (e *OrdEngine) call(ci ssa.CallInstruction, fr *Frame, f *Fact, dr *deferRe
 		}
 		return e.eval(ci.Common().Value, fr, f)
 	}
-	cx := &Ctx{E: e, Fr: fr, P: e.P}
+	cx := &Ctx{E: e, Fr: fr, P: e.P, F: f}
 	cc := ci.Common()
 	var resVal ssa.Value
 	if c, ok := ci.(*ssa.Call); ok {
@@ -1272,7 +1567,18 @@ func (e *OrdEngine) call(ci ssa.CallInstruction, fr *Frame, f *Fact, dr *deferRe
 	nres := sig.Results().Len()
 
 	// builtins
-	if _, ok := cc.Value.(*ssa.Builtin); ok {
+	if b, ok := cc.Value.(*ssa.Builtin); ok {
+		if b.Name() == "len" && len(cc.Args) == 1 && resVal != nil {
+			if a := e.eval(cc.Args[0], fr, f); a.K == avCell && a.Path == "" {
+				if pt, ok := a.Cell.Type().Underlying().(*types.Pointer); ok {
+					if at, ok := pt.Elem().Underlying().(*types.Array); ok {
+						e.setVal(resVal, AV{K: avInt, N: at.Len()}, f)
+					}
+				}
+			} else if a.K == avStr {
+				e.setVal(resVal, AV{K: avInt, N: int64(len(a.S))}, f)
+			}
+		}
 		if info.Event != "" {
 			e.emit(cx, info.Event, "", ci, f)
 		} else if e.Spec.Instr != nil {
@@ -1418,7 +1724,7 @@ func (e *OrdEngine) call(ci ssa.CallInstruction, fr *Frame, f *Fact, dr *deferRe
 		exits := e.analyse(nf, f)
 		for _, ex := range exits {
 			g := f.clone()
-			g.Cells = make(map[ssa.Value]AV, len(ex.F.Cells))
+			g.Cells = make(map[cellKey]AV, len(ex.F.Cells))
 			for k, v := range ex.F.Cells {
 				g.Cells[k] = v
 			}
@@ -1446,6 +1752,12 @@ func (e *OrdEngine) call(ci ssa.CallInstruction, fr *Frame, f *Fact, dr *deferRe
 			}
 			if resVal != nil && !deferred {
 				e.setVal(resVal, ret, g)
+				if e.Spec.Value != nil {
+					cx2 := &Ctx{E: e, Fr: fr, P: e.P, F: g}
+					if a2, ok := e.Spec.Value(cx2, resVal, g); ok {
+						e.setVal(resVal, a2, g)
+					}
+				}
 			}
 			out = append(out, g)
 		}
